@@ -542,6 +542,7 @@ class Walker:
         self._site = 0
         self.guards: List[Tuple[Term, bool]] = []
         self.loopstack: List[int] = []
+        self.cont_stack: List[Tuple[int, list]] = []
         self.fnstack: List[FunctionInfo] = []
         self.inlined: List[str] = []
         self.stmt: Optional[ast.AST] = None
@@ -698,6 +699,9 @@ class Walker:
             return True
         if isinstance(s, ast.Continue):
             self.emit("continue", s)
+            if self.cont_stack:
+                base, recs = self.cont_stack[-1]
+                recs.append((list(self.guards[base:]), dict(env)))
             return True
         if isinstance(s, ast.Pass):
             return None
@@ -882,7 +886,9 @@ class Walker:
                 self.emit("store", s, target=self.ev(t, env), value=("iter", dom, li.lid))
 
         bind(s.target, [])
+        self.cont_stack.append((len(self.guards), []))
         self.block(s.body, env)
+        self._merge_continues(env, names)
         self.loopstack.pop()
         for n in names:
             li.carried[n] = (init[n], env.get(n, ("undef",)))
@@ -893,6 +899,20 @@ class Walker:
             self.block(s.orelse, env)
         return None
 
+    def _merge_continues(self, env: Dict[str, Term], names: List[str]) -> None:
+        """The value a variable carries into the next iteration: on a path that ended with `continue`
+        it is the value held there, otherwise the value at the end of the body."""
+        _, recs = self.cont_stack.pop()
+        for guards, cenv in reversed(recs):
+            conds = [g if pol else mk_not(g) for g, pol in guards]
+            if not conds:
+                continue
+            cond = conds[0] if len(conds) == 1 else ("and", tuple(conds))
+            for n in names:
+                a, b = cenv.get(n, ("undef",)), env.get(n, ("undef",))
+                if a != b:
+                    env[n] = ("sel", cond, a, b)
+
     def while_(self, s: ast.While, env: Dict[str, Term]):
         li = self._enter_loop("while", s, env)
         names, init = self._loop_body(li, s.body, env, [])
@@ -901,7 +921,9 @@ class Walker:
         self.guard_src.setdefault(cond, (s.lineno, "while " + unparse(s.test), self.fnstack[-1]))
         self.loopstack.append(li.lid)
         self.guards.append((cond, True))
+        self.cont_stack.append((len(self.guards), []))
         self.block(s.body, env)
+        self._merge_continues(env, names)
         self.guards.pop()
         self.loopstack.pop()
         for n in names:
@@ -1041,6 +1063,9 @@ class Walker:
                         v = ("iter", it, lid) if not path else ("iterproj", it, lid, tuple(path))
                         if not path:
                             v = elem_of(it, lid)
+                        if path == [1] and it[0] == "call" and it[1] == ("builtin", "enumerate") and len(it[2]) == 1 \
+                                and not it[3]:
+                            v = ("idx", it[2][0], ("iterproj", it, lid, (0,)))
                         cenv[t.id] = v
                     elif isinstance(t, (ast.Tuple, ast.List)):
                         for i, x in enumerate(t.elts):
